@@ -121,6 +121,17 @@ func mapDeletesOn(fn *ssa.Function, suffix string) []*ssa.Call {
 	return out
 }
 
+// stop: the cache's role functions are anchors of their own; a region does
+// not descend into them.
+func (a *cacheAnchors) stop(g *ssa.Function) bool {
+	for _, r := range []*ssa.Function{a.add, a.ins, a.del, a.keyFn} {
+		if r != nil && sameFunc(g, r) {
+			return true
+		}
+	}
+	return false
+}
+
 func resolveCache(c *core.Ctx) *cacheAnchors {
 	P := c.P
 	a := &cacheAnchors{add: P.Method(P.Root, "EventCache", "Add")}
@@ -386,6 +397,7 @@ func runNewestWins(c *core.Ctx) {
 	// displaced version removed before the store: every kept path to the map
 	// update passes a call of the removal helper with the same key
 	paths, _ := an.PathsTo(ins, mu.Block(), 4096)
+	delOccs := occCallsTo(ins, a.del, a.stop)
 	okRem := true
 	cnt := 0
 	for _, p := range paths {
@@ -394,13 +406,9 @@ func runNewestWins(c *core.Ctx) {
 		}
 		cnt++
 		found := false
-		for _, b := range p {
-			for _, in := range b.Instrs {
-				if call, ok := in.(*ssa.Call); ok {
-					if sc := an.StaticCallee(&call.Call); sc != nil && sameFunc(sc, a.del) && strings.Contains(an.PathOf(call.Call.Args[1]), "EventKey="+keyPath) {
-						found = true
-					}
-				}
+		for _, o := range delOccs {
+			if p.Contains(o.Block()) && strings.Contains(occArg(o, 1), "EventKey="+keyPath) {
+				found = true
 			}
 		}
 		if !found {
@@ -440,15 +448,17 @@ func runCapGuard(c *core.Ctx) {
 	}
 	add := a.add
 	c.CountFuncs(1)
-	// eviction call: call of the removal helper in Add
-	var ev *ssa.Call
-	for _, call := range callsTo(add, a.del) {
-		ev = call
+	// eviction call: call of the removal helper in Add (possibly through a private wrapper)
+	var evo *an.Occ
+	for _, o := range occCallsTo(add, a.del, a.stop) {
+		o := o
+		evo = &o
 	}
-	if ev == nil {
+	if evo == nil {
 		c.Bad(nil, fname(c, add), "evict", P.Pos(add.Pos()), "Add never removes an event when the capacity is exceeded")
 		return
 	}
+	ev := evo.Site()
 	fr := an.SymFrame("len(recv.evs)", "recv.Cap")
 	fr.Domain = nil
 	s, n, ok := fr.ReachSet(add, ev.Block(), nil, nil)
@@ -495,11 +505,11 @@ func runCapGuard(c *core.Ctx) {
 	c.Check(okDom, nil, fname(c, add), "evict/on-every-success-path", P.Pos(ev.Pos()),
 		"every path from a successful insertion to 'return true' passes the capacity test", "a path returns true after inserting without passing the capacity test")
 	// victim is taken from the small (oldest) end of the creation-time tree
-	vp := an.PathOf(ev.Call.Args[1])
+	vp := occArg(*evo, 1)
 	src := vp
 	an.Instrs(add, func(in ssa.Instruction) {
 		if call, ok := in.(*ssa.Call); ok {
-			if sc := an.StaticCallee(&call.Call); sc != nil && c.P.InModule(sc) && strings.Contains(vp, an.PathOf(call)) && call != ev {
+			if sc := an.StaticCallee(&call.Call); sc != nil && c.P.InModule(sc) && strings.Contains(vp, an.PathOf(call)) && ssa.Instruction(call) != ev {
 				src += " ← " + calleeReturnPath(sc)
 			}
 		}
